@@ -525,6 +525,13 @@ func (bridge *ExprBridge) isFunctionCall(expression string) bool {
 
 // PreprocessLikeExpression 预处理LIKE表达式，转换为expr-lang可理解的函数调用
 func (bridge *ExprBridge) PreprocessLikeExpression(expression string) (string, error) {
+	// text inside string literals is text: only the pattern literal right after LIKE takes part
+	masked, lits := maskStringLiterals(expression, true)
+	out, err := bridge.preprocessLikeMasked(masked)
+	return unmaskStringLiterals(out, lits), err
+}
+
+func (bridge *ExprBridge) preprocessLikeMasked(expression string) (string, error) {
 	// 使用正则表达式匹配LIKE模式
 	// 匹配: field LIKE 'pattern' 或 `field` LIKE 'pattern' (允许空模式)
 	// 支持反引号标识符和普通标识符
@@ -558,6 +565,54 @@ func (bridge *ExprBridge) PreprocessLikeExpression(expression string) (string, e
 
 // PreprocessIsNullExpression 预处理IS NULL和IS NOT NULL表达式，转换为expr-lang可理解的表达式
 func (bridge *ExprBridge) PreprocessIsNullExpression(expression string) (string, error) {
+	// text inside string literals is text: 'x IS NULL' is a literal, not a test
+	masked, lits := maskStringLiterals(expression, false)
+	out, err := bridge.preprocessIsNullMasked(masked)
+	return unmaskStringLiterals(out, lits), err
+}
+
+// maskStringLiterals replaces every string literal ('...' or "...") by a name-like token, so that the
+// textual rewritings of LIKE and IS NULL cannot touch its content. With keepLikePattern the single-quoted
+// literal that directly follows the keyword LIKE stays as it is (the LIKE rewriting needs it).
+func maskStringLiterals(expr string, keepLikePattern bool) (string, []string) {
+	var b strings.Builder
+	var lits []string
+	for i := 0; i < len(expr); {
+		c := expr[i]
+		if c != '\'' && c != '"' {
+			b.WriteByte(c)
+			i++
+			continue
+		}
+		j := i + 1
+		for j < len(expr) && expr[j] != c {
+			j++
+		}
+		if j >= len(expr) { // unterminated: leave the rest alone
+			b.WriteString(expr[i:])
+			break
+		}
+		lit := expr[i : j+1]
+		before := strings.ToUpper(strings.TrimRight(b.String(), " \t\n"))
+		if keepLikePattern && c == '\'' && strings.HasSuffix(before, "LIKE") {
+			b.WriteString(lit)
+		} else {
+			fmt.Fprintf(&b, "__strlit_%d__", len(lits))
+			lits = append(lits, lit)
+		}
+		i = j + 1
+	}
+	return b.String(), lits
+}
+
+func unmaskStringLiterals(expr string, lits []string) string {
+	for i := len(lits) - 1; i >= 0; i-- {
+		expr = strings.Replace(expr, fmt.Sprintf("__strlit_%d__", i), lits[i], 1)
+	}
+	return expr
+}
+
+func (bridge *ExprBridge) preprocessIsNullMasked(expression string) (string, error) {
 	// 匹配复杂表达式的 IS NOT NULL 模式 (如函数调用)
 	complexNotNullPattern := `([A-Za-z_][A-Za-z0-9_]*\s*\([^)]*\))\s+IS\s+NOT\s+NULL`
 	reComplexNotNull, err := regexp.Compile(complexNotNullPattern)
